@@ -109,6 +109,8 @@ TEMPLATES = [
     T('EU d.m.Y hms', 'hms', lambda d, n, s: '%02d.%02d.%04d %s' % (d.day, d.month, d.year, hms(d)), flags={'dayfirst': True, 'yearfirst': False}, group='numeric'),
     T('EU d-m-Y hm', 'hm', lambda d, n, s: '%d-%d-%04d %02d:%02d' % (d.day, d.month, d.year, d.hour, d.minute), flags={'dayfirst': True, 'yearfirst': False}, group='numeric'),
     T('YF Y/m/d', 'date', lambda d, n, s: '%04d/%02d/%02d' % (d.year, d.month, d.day), flags={'yearfirst': True, 'dayfirst': False}, group='numeric'),
+    T('YDM Y/d/m', 'date', lambda d, n, s: '%04d/%02d/%02d' % (d.year, d.day, d.month), flags={'yearfirst': True, 'dayfirst': True}, group='numeric'),
+    T('YDM Y-d-m hm', 'hm', lambda d, n, s: '%04d-%d-%d %02d:%02d' % (d.year, d.day, d.month, d.hour, d.minute), flags={'yearfirst': True, 'dayfirst': True}, group='numeric'),
     T('YF Y.m.d hms', 'hms', lambda d, n, s: '%04d.%02d.%02d %s' % (d.year, d.month, d.day, hms(d)), flags={'yearfirst': True, 'dayfirst': False}, group='numeric'),
     T('US m/d/yy', 'date', lambda d, n, s: '%02d/%02d/%02d' % (d.month, d.day, d.year % 100), flags={'dayfirst': False, 'yearfirst': False}, yy=True, group='numeric-yy'),
     T('EU d/m/yy hms', 'hms', lambda d, n, s: '%02d/%02d/%02d %s' % (d.day, d.month, d.year % 100, hms(d)), flags={'dayfirst': True, 'yearfirst': False}, yy=True, group='numeric-yy'),
